@@ -50,7 +50,6 @@ proof {
 }
 ''', occ=2)]),
     Fn(F_SB, 'ScannerBuilder', 'build_uncached', ret='r', props=P,
-       sig_replace=[('build_uncached ( self )', 'build_uncached<M: Fn(CharClassID, char) -> bool>(self)')],
        spec='requires valid_config(self.scanner_modes@), modes_fit(self.scanner_modes@)' + BUILT % 'self.scanner_modes@',
        edits=[Replace('E9', 'self.scanner_modes.try_into()?', 'ScannerImpl::try_from__vec(self.scanner_modes)?', why='trait dispatch resolved by argument and field type (TryFrom<Vec<ScannerMode>> for ScannerImpl)')]),
     Fn(F_SC, 'TryFrom<Vec<ScannerMode>> for Scanner', 'try_from', ret='r', rename='try_from__vec', impl_as='Scanner', qual_as='Scanner', props=P,
@@ -61,6 +60,10 @@ proof {
     Fn(F_PAT, 'Lookahead', 'new', ret='r', props=P + ['C04'], spec='ensures r.is_positive == is_positive, r.pattern == pattern'),
     Fn(F_PAT, 'Lookahead', 'is_positive', ret='r', props=P + ['C04'], spec='ensures r == self.is_positive'),
 ]
+
+for _f in items:
+    if isinstance(_f, Fn) and _f.qual == 'ScannerBuilder::build_uncached':
+        _f.extra_generics = ['M: ' + BOUND]  # the return type Scanner became Scanner<M> (rule E2)
 
 UNIT = dict(
     name='u_bld',
